@@ -90,7 +90,7 @@ var specs = map[string]*PropSpec{
 		StepKeys: []string{"operations", "reader_calls", "writer_calls"},
 	},
 	"C17": {
-		Level: "exploration", Race: true, RestartEvery: 60, QuickRuns: 3000, ThorRuns: 100000, QuickCap: 150 * time.Second, ThorCap: 28 * time.Minute, QuickWD: 20000, ThorWD: 40000,
+		Level: "exploration", Race: true, RestartEvery: 20, QuickRuns: 3000, ThorRuns: 100000, QuickCap: 150 * time.Second, ThorCap: 28 * time.Minute, QuickWD: 20000, ThorWD: 40000,
 		Rule: "one run = one seeded schedule of 2-6 simulated caller threads x 1-3 operations each (marshal via ce.Marshal* or a shared iterator.Session, unmarshal via ce.Unmarshal* or a shared builder.Session, decode, validate) on 1-2 drawn value types that no session has seen before (struct/slice/map/pointer/recursive/unsupported kinds), with sharing mode (package-level only / iterator.Session / builder.Session / both; optionally the same input object marshaled by several threads) and scheduler bias (uniform, sticky, switch-at-install, round-robin, starvation) drawn per run. The tape picks the next thread at every yield point (operation boundary, reader/writer call, event, type-cache hook site). Invariants: no race-detector report with a library/dependency frame during the schedule (worker built with -race; thread hand-off via raw pipe syscalls so the detector sees only the library's own synchronisation); no deadlock/livelock (real blocking detected from goroutine state); each call's bytes/value/events/err==nil equal the same call run alone on fresh instances and sessions after the join. Non-trivial = the schedule has more steps than threads; distinct = distinct hashes of the (thread, site) sequence, i.e. distinct interleavings",
 		Stubs: []string{"thread scheduler (sched: raw-pipe hand-off, quiescence by goroutine-state inspection)", "SimReader/SimWriter"}, Real: append([]string{"sync.Map/WaitGroup type-cache protocols in iterator.Session and builder.Session (real blocking)", "Go race detector as invariant monitor"}, commonReal...),
 		StepKeys: []string{"scheduler_steps", "operations"},
